@@ -222,13 +222,16 @@ func answerVectors(d int, full3 int, full2 int) [][]int {
 func runC20(c *fw.Ctx) {
 	tags := []string{"L3", "L4", "L5", "L6", "L7", "L8", "L9"}
 	maxes := []int{0, 1, 7, 100}
-	c.R.Bounds["grid"] = "layouts L3-L9 x max {0,1,7,100} x fill on/off x every phase in [0, coarsest step) x destination absent/existing x 3 (method, xff) pairs; rand answers: all 3^d for d<=6 draws, else <=2 deviations + all 2^d over {0,n-1} for d<=12"
+	c.R.Bounds["grid"] = "layouts L3-L9 x max {0,1,7,100} x fill on/off x every phase in [0, coarsest step) in two eras (today, after 2038) x destination absent/existing x 3 (method, xff) pairs; rand answers: all 3^d for d<=6 draws, else <=2 deviations + all 2^d over {0,n-1} for d<=12"
 	for _, tag := range tags {
 		ld := LayoutByTag(tag)
 		sl := int64(ld.Archs[len(ld.Archs)-1].Step)
-		t0 := EraMid - EraMid%Period(ld.Archs)
-		for ph := int64(0); ph < sl; ph++ {
-			now := t0 + ph
+		for ph := int64(0); ph < 2*sl; ph++ {
+			t0 := EraMid - EraMid%Period(ld.Archs)
+			if ph >= sl { // the same phases after 2038 (times beyond MaxInt32)
+				t0 = EraHigh - EraHigh%Period(ld.Archs)
+			}
+			now := t0 + ph%sl
 			for mi, mx := range maxes {
 				for _, fill := range []bool{true, false} {
 					if !c.Mine() {
